@@ -20,7 +20,7 @@ P5 == [src |-> "other", cfg |-> "lit:x"]
 StepEnvs == {Env(TRUE, <<>>), Env(FALSE, <<>>), Env(FALSE, ("A" :> "1")), Env(FALSE, ("A" :> "1") @@ ("C" :> "3"))}
 PluginLists == {Plug(TRUE, <<>>), Plug(FALSE, <<>>), Plug(FALSE, <<P1>>), Plug(FALSE, <<P1, P2>>), Plug(FALSE, <<P3>>),
                 Plug(FALSE, <<P4>>), Plug(FALSE, <<P4, P5>>)}
-Matrices == {"nil", "empty", "list_ab", "adj_base", "setup_os", "adj_tomb_v"}       \* setup_os: exactly one NAMED dimension
+Matrices == {"nil", "empty", "list_ab", "adj_base", "setup_os", "adj_tomb_v", "shadow_a"}       \* setup_os: exactly one NAMED dimension
 PEnvs == {<<>>, ("A" :> "pa"), ("A" :> "pa") @@ ("B" :> "pb"), ("B" :> "") }
 Keys == {[pair |-> "K1", alg |-> "EdDSA"], [pair |-> "K1", alg |-> "ES512"], [pair |-> "K1", alg |-> "PS512"], [pair |-> "K1", alg |-> "ES256"]}
 
@@ -28,7 +28,7 @@ Kinds == { "none",
   \* semantic: content
   "cmd", "env_add", "env_remove", "env_change", "env_rename",
   "plug_add", "plug_remove", "plug_reorder", "plug_source", "plug_config", "plug_config_deep", "plug_config_scalar", "plug_null_vs_nonempty",
-  "matrix_add", "matrix_remove", "matrix_setup_value", "matrix_adj_with", "matrix_adj_skip", "matrix_adj_extra", "matrix_dim_rename", "matrix_dim_value", "matrix_dim_anon", "matrix_adj_extra_last",
+  "matrix_add", "matrix_remove", "matrix_setup_value", "matrix_adj_with", "matrix_adj_skip", "matrix_adj_extra", "matrix_dim_rename", "matrix_dim_value", "matrix_dim_anon", "matrix_adj_extra_last", "matrix_shadowed_setup",
   "repo", "penv_value", "penv_removed", "penv_shadowed",
   \* semantic: record and key
   "rec_alg", "fields_drop_mandatory", "fields_drop_env", "fields_add_env", "fields_add_unknown", "fields_empty",
@@ -64,6 +64,7 @@ MutContent(o, kind) ==
       [] kind = "matrix_dim_value" -> IF o.matrix = "setup_os" THEN [o EXCEPT !.matrix = "setup_os2"] ELSE NA
       [] kind = "matrix_dim_anon" -> IF o.matrix = "setup_os" THEN [o EXCEPT !.matrix = "list_linux"] ELSE NA         \* same values, anonymous dimension
       [] kind = "matrix_adj_extra_last" -> IF o.matrix = "adj_tomb_v" THEN [o EXCEPT !.matrix = "adj_tomb_w"] ELSE NA   \* the last pair of an edited ordered map deep inside an adjustment
+      [] kind = "matrix_shadowed_setup" -> IF o.matrix = "shadow_a" THEN [o EXCEPT !.matrix = "shadow_b"] ELSE NA     \* the real setup changes; a leftover key named `setup` stays the same
       [] kind = "repo" -> [o EXCEPT !.repo = "https://example.com/other.git"]
       [] kind = "penv_shadowed" -> IF "B" \notin DOMAIN o.env.m THEN [o EXCEPT !.env = Env(FALSE, ("B" :> "pb") @@ o.env.m)] ELSE NA
       [] kind = "env_nil_vs_empty" -> IF DOMAIN o.env.m = {} THEN [o EXCEPT !.env = Env(~o.env.nil, <<>>)] ELSE NA
